@@ -1,0 +1,21 @@
+//go:build verif
+
+package tsdb
+
+// VerifFamilyMutexFree reports whether the mutex of the data family is free at this instant
+// (TryLock probe, the lock is released again at once). The verification harness runs a second
+// actor (the local replicator) on the goroutine of the flush job at intercepted file-system
+// operations; an actor which needs the family mutex may only be run where the flush job does
+// not hold it (in production it would block there until the mutex is released).
+// Build tag verif only; no behaviour change when unused.
+func VerifFamilyMutexFree(f DataFamily) bool {
+	df, ok := f.(*dataFamily)
+	if !ok {
+		return false
+	}
+	if df.mutex.TryLock() {
+		df.mutex.Unlock()
+		return true
+	}
+	return false
+}
